@@ -313,7 +313,8 @@ def check_unary_ops(ctx, a, a_full, sub=None, resize_sizes=(None, 4, 6), light=F
         for size in resize_sizes:
             if size is not None and size < maxend:
                 continue
-            sizes = {c: size for c in chroms} if size is not None else None
+            # a different size per chromosome, so a size looked up for the wrong row shows
+            sizes = {c: size + 2 * i for i, c in enumerate(chroms)} if size is not None else None
             got = ctx.call(a.resize_ranges, bp, sizes)
             s = {"op": "resize", "bp": bp, "size": size, **(sub or {})}
             if isinstance(got, Exc):
@@ -488,7 +489,8 @@ def run_chain(case, ctx):
             if not _chain_sorted(full):
                 ctx.stratum("chain-state-unsorted")
                 continue  # operations are specified on sorted tables only
-            check_unary_ops(ctx, arr, full, sub=sub, resize_sizes=(None,), light=True)
+            # chain states carry whatever row index the previous operations left behind (subsets, permutations)
+            check_unary_ops(ctx, arr, full, sub=sub, resize_sizes=(None, 6), light=True)
             for i, b in enumerate(CHAIN_B):
                 bga, _ = make_ga(b, "")
                 check_subtract(ctx, arr, full, bga, sort_rows(b), {**sub, "b": b})
